@@ -1391,6 +1391,44 @@ func storesToResolvedNamesCheckConstness(c *core.Ctx) {
 		core.Undecidedf("store opcodes not found")
 	}
 	n := 0
+	// store helpers: functions of the compiler that emit a store instruction for
+	// a resolution they are handed (the scope switch, moved into a function of
+	// its own); a call of one is a store to the name that the caller resolved
+	isStoreEmit := func(call *ssa.Call) (string, bool) {
+		cal := call.Call.StaticCallee()
+		if cal != nil && cal.Name() == "emit" && len(call.Call.Args) >= 2 {
+			if k, ok := call.Call.Args[1].(*ssa.Const); ok && k.Value != nil {
+				if v, ok := constantInt64(k.Value); ok && storeOps[v] != "" {
+					return storeOps[v], true
+				}
+			}
+		}
+		return "", false
+	}
+	storeHelpers := map[*ssa.Function]bool{}
+	for _, fn := range repoFns(p, "compiler") {
+		hasResolve, hasStore, takesResolution := false, false, false
+		for _, prm := range fn.Params {
+			if nt := core.NamedOf(prm.Type()); nt != nil && (nt.Obj().Name() == "Resolution" || nt == symT) {
+				takesResolution = true
+			}
+		}
+		for _, b := range fn.Blocks {
+			for _, in := range b.Instrs {
+				if call, ok := in.(*ssa.Call); ok {
+					if call.Call.StaticCallee() == resolveF {
+						hasResolve = true
+					}
+					if _, is := isStoreEmit(call); is {
+						hasStore = true
+					}
+				}
+			}
+		}
+		if hasStore && takesResolution && !hasResolve {
+			storeHelpers[fn] = true
+		}
+	}
 	for _, fn := range repoFns(p, "compiler") {
 		var resolves, stores, tests []ssa.Instruction
 		for _, b := range fn.Blocks {
@@ -1405,11 +1443,11 @@ func storesToResolvedNamesCheckConstness(c *core.Ctx) {
 					resolves = append(resolves, in)
 				case cal == isConstF:
 					tests = append(tests, in)
+				case cal != nil && storeHelpers[cal]:
+					stores = append(stores, in)
 				case cal != nil && cal.Name() == "emit" && len(call.Call.Args) >= 2:
-					if k, ok := call.Call.Args[1].(*ssa.Const); ok && k.Value != nil {
-						if v, ok := constantInt64(k.Value); ok && storeOps[v] != "" {
-							stores = append(stores, in)
-						}
+					if _, is := isStoreEmit(call); is {
+						stores = append(stores, in)
 					}
 				}
 			}
@@ -1447,8 +1485,10 @@ func storesToResolvedNamesCheckConstness(c *core.Ctx) {
 					}
 				}
 			}
-			kv, _ := constantInt64(st.(*ssa.Call).Call.Args[1].(*ssa.Const).Value)
-			opName := storeOps[kv]
+			opName, direct := isStoreEmit(st.(*ssa.Call))
+			if !direct {
+				opName = "Store(" + st.(*ssa.Call).Call.StaticCallee().Name() + ")"
+			}
 			perOp[opName]++
 			c.Check(checked, core.SSAName(fn)+"|store-after-constness-test|"+opName+ifs(perOp[opName] > 1, "#"+itoa(perOp[opName])), p.Pos(st.Pos()),
 				fn.Name()+" stores to a resolved name only after testing that it is not a constant"+ifs(!checked, ": a `const` can be changed through this statement form"))
